@@ -25,7 +25,12 @@ from cascade.low.core import DatasetId, Environment, JobInstance, Worker, Worker
 from cascade.low.views import param_source
 from cascade.scheduler.graph import precompute
 
-from vf.common import HarnessError, Violation, seam
+import cascade.scheduler.graph as _sgraph
+
+from vf.common import HarnessError, InlinePool, Violation, seam
+
+seam(_sgraph, "ThreadPoolExecutor")
+_sgraph.ThreadPoolExecutor = InlinePool  # precompute's pool is only a speed-up; inline = deterministic and fork-safe
 from vf.jobs import JobSpec, sequential_eval
 
 
